@@ -15,7 +15,8 @@ What is mirrored from /repo (file:line of the behaviour each definition reproduc
                the fresh tail variables are never related to the other side's tail (lines 880-924:
                `rest = subs.new_var()` twice, nothing is unified with it afterwards).  That is a
                defect of the unchanged code (see Props/C03.lean `unifyRows_unsound_fails`).
-* `infer`      algorithm W in the order typecheck.rs visits sub-expressions (typecheck.rs:671
+* `infer`      algorithm W/J (one threaded substitution = the union-find store, plus the variable
+               counter) in the order typecheck.rs visits sub-expressions (typecheck.rs:671
                `typecheck_`: App 701 / 1297, IfElse 720, Tuple 787, Projection 903, Array 951,
                Lambda 967, Record 989, let 1920 `typecheck_let_bindings` + 2363
                `generalize_and_clear_subs`).  The real checker is bidirectional and generalises by
@@ -251,14 +252,11 @@ def lookup (x : String) : Env → Option Scheme
 
 def Scheme.mono (t : Ty) : Scheme := ⟨[], t⟩
 
-def Scheme.subst (σ : Subst) (s : Scheme) : Scheme :=
-  ⟨s.vars, s.ty.subst fun n => if n ∈ s.vars then .var n else σ n⟩
-
-def Env.subst (σ : Subst) (Γ : Env) : Env := Γ.map fun p => (p.1, p.2.subst σ)
-
 def Scheme.ftv (s : Scheme) : List Nat := s.ty.ftv.filter fun v => !s.vars.contains v
 
-def Env.ftv (Γ : Env) : List Nat := Γ.flatMap fun p => p.2.ftv
+/-- the variables free in the environment once the current substitution `S` is applied -/
+def Env.ftvUnder (S : Subst) (Γ : Env) : List Nat :=
+  Γ.flatMap fun p => p.2.ftv.flatMap fun v => (S v).ftv
 
 def indexOf (v : Nat) : List Nat → Nat → Option Nat
   | [], _ => none
@@ -271,120 +269,130 @@ def inst (s : Scheme) (n : Nat) : Ty × Nat :=
     | none => .var v,
    n + s.vars.length)
 
-/-- generalise what is free in the type but not in the environment (typecheck.rs:2363
-    `generalize_and_clear_subs`; generalize.rs:80 does it by level). -/
-def generalize (Γ : Env) (t : Ty) : Scheme :=
-  ⟨t.ftv.eraseDups.filter fun v => !Γ.ftv.contains v, t⟩
+/-- generalise what is free in the (substituted) type but not in the (substituted) environment
+    (typecheck.rs:2363 `generalize_and_clear_subs`; generalize.rs:80 does it by level). -/
+def generalize (S : Subst) (Γ : Env) (t : Ty) : Scheme :=
+  ⟨(t.subst S).ftv.eraseDups.filter fun v => !(Γ.ftvUnder S).contains v, t.subst S⟩
 
 def unifyFuel : Nat := 4096
 
-/-- Algorithm W. Returns the substitution, the type (already under the substitution) and the next
-    unused variable. -/
-def infer (rows : Bool) : Env → Expr → Nat → Except UErr (Subst × Ty × Nat)
-  | Γ, .var x, n =>
+/-- unify two types under the current substitution and extend it (the union-find store of
+    substitution.rs seen as one composed substitution) -/
+def unifyS (rows : Bool) (S : Subst) (n : Nat) (a b : Ty) : Except UErr (Subst × Nat) :=
+  match unify rows unifyFuel n (a.subst S) (b.subst S) with
+  | .error e => .error e
+  | .ok (U, n') => .ok (U.comp S, n')
+
+/-- `some row` for a record type `{ row }` -/
+def asRec : Ty → Option Ty
+  | .app (.con c) row => if c = "Rec" then some row else none
+  | _ => none
+
+def isVar : Ty → Bool
+  | .var _ => true
+  | _ => false
+
+/-- Type inference with one threaded substitution (the state of the real checker is the
+    union-find `Substitution` plus the variable counter `subs.var_id()`): returns the type (NOT yet
+    under the substitution), the extended substitution and the next unused variable.  The
+    environment is never rewritten; schemes are interpreted under the current substitution. -/
+def infer (rows : Bool) : Env → Expr → Subst → Nat → Except UErr (Ty × Subst × Nat)
+  | Γ, .var x, S, n =>
     match lookup x Γ with
     | none => .error .unbound
-    | some s => let r := inst s n; .ok (Subst.id, r.1, r.2)
-  | Γ, .lam x b, n =>
-    match infer rows ((x, Scheme.mono (.var n)) :: Γ) b (n + 1) with
+    | some s => let r := inst s n; .ok (r.1, S, r.2)
+  | Γ, .lam x b, S, n =>
+    match infer rows ((x, Scheme.mono (.var n)) :: Γ) b S (n + 1) with
     | .error e => .error e
-    | .ok (σ, τ, n') => .ok (σ, fn (σ n) τ, n')
-  | Γ, .app f a, n =>
-    match infer rows Γ f n with
+    | .ok (τ, S', n') => .ok (fn (.var n) τ, S', n')
+  | Γ, .app f a, S, n =>
+    match infer rows Γ f S n with
     | .error e => .error e
-    | .ok (σ₁, τf, n₁) =>
-      match infer rows (Γ.subst σ₁) a n₁ with
+    | .ok (τf, S₁, n₁) =>
+      match infer rows Γ a S₁ n₁ with
       | .error e => .error e
-      | .ok (σ₂, τa, n₂) =>
+      | .ok (τa, S₂, n₂) =>
         -- typecheck.rs:1360 `subsume_function`: expected = the function's parameter, actual = argument
-        match unify rows unifyFuel (n₂ + 1) (τf.subst σ₂) (fn τa (.var n₂)) with
+        match unifyS rows S₂ (n₂ + 1) τf (fn τa (.var n₂)) with
         | .error e => .error e
-        | .ok (σ₃, n₃) => .ok (σ₃.comp (σ₂.comp σ₁), σ₃ n₂, n₃)
-  | Γ, .letE x e b, n =>
-    match infer rows Γ e n with
+        | .ok (S₃, n₃) => .ok (.var n₂, S₃, n₃)
+  | Γ, .letE x e b, S, n =>
+    match infer rows Γ e S n with
     | .error err => .error err
-    | .ok (σ₁, τ₁, n₁) =>
-      let Γ₁ := Γ.subst σ₁
-      match infer rows ((x, generalize Γ₁ τ₁) :: Γ₁) b n₁ with
-      | .error err => .error err
-      | .ok (σ₂, τ₂, n₂) => .ok (σ₂.comp σ₁, τ₂, n₂)
-  | _, .int _, n => .ok (Subst.id, tInt, n)
-  | _, .str _, n => .ok (Subst.id, tString, n)
-  | Γ, .lt a b, n =>
-    match infer rows Γ a n with
+    | .ok (τ₁, S₁, n₁) => infer rows ((x, generalize S₁ Γ τ₁) :: Γ) b S₁ n₁
+  | _, .int _, S, n => .ok (tInt, S, n)
+  | _, .str _, S, n => .ok (tString, S, n)
+  | Γ, .lt a b, S, n =>
+    match infer rows Γ a S n with
     | .error e => .error e
-    | .ok (σ₁, τa, n₁) =>
-      match unify rows unifyFuel n₁ tInt τa with
+    | .ok (τa, S₁, n₁) =>
+      match unifyS rows S₁ n₁ tInt τa with
       | .error e => .error e
-      | .ok (σ₂, n₂) =>
-        let σ₁₂ := σ₂.comp σ₁
-        match infer rows (Γ.subst σ₁₂) b n₂ with
+      | .ok (S₂, n₂) =>
+        match infer rows Γ b S₂ n₂ with
         | .error e => .error e
-        | .ok (σ₃, τb, n₃) =>
-          match unify rows unifyFuel n₃ tInt τb with
+        | .ok (τb, S₃, n₃) =>
+          match unifyS rows S₃ n₃ tInt τb with
           | .error e => .error e
-          | .ok (σ₄, n₄) => .ok (σ₄.comp (σ₃.comp σ₁₂), tBool, n₄)
-  | Γ, .ifE c t e, n =>
-    match infer rows Γ c n with
+          | .ok (S₄, n₄) => .ok (tBool, S₄, n₄)
+  | Γ, .ifE c t e, S, n =>
+    match infer rows Γ c S n with
     | .error err => .error err
-    | .ok (σ₁, τc, n₁) =>
-      match unify rows unifyFuel n₁ tBool τc with
+    | .ok (τc, S₁, n₁) =>
+      match unifyS rows S₁ n₁ tBool τc with
       | .error err => .error err
-      | .ok (σ₂, n₂) =>
-        let σ₁₂ := σ₂.comp σ₁
-        match infer rows (Γ.subst σ₁₂) t n₂ with
+      | .ok (S₂, n₂) =>
+        match infer rows Γ t S₂ n₂ with
         | .error err => .error err
-        | .ok (σ₃, τt, n₃) =>
-          let σ₁₃ := σ₃.comp σ₁₂
-          match infer rows (Γ.subst σ₁₃) e n₃ with
+        | .ok (τt, S₃, n₃) =>
+          match infer rows Γ e S₃ n₃ with
           | .error err => .error err
-          | .ok (σ₄, τe, n₄) =>
-            match unify rows unifyFuel n₄ (τt.subst σ₄) τe with
+          | .ok (τe, S₄, n₄) =>
+            match unifyS rows S₄ n₄ τt τe with
             | .error err => .error err
-            | .ok (σ₅, n₅) => .ok (σ₅.comp (σ₄.comp σ₁₃), (τt.subst σ₄).subst σ₅, n₅)
-  | _, .fnil, n => .ok (Subst.id, .empty, n)
-  | Γ, .fcons l e rest, n =>
-    match infer rows Γ e n with
+            | .ok (S₅, n₅) => .ok (τt, S₅, n₅)
+  | _, .fnil, S, n => .ok (.empty, S, n)
+  | Γ, .fcons l e rest, S, n =>
+    match infer rows Γ e S n with
     | .error err => .error err
-    | .ok (σ₁, τ, n₁) =>
-      match infer rows (Γ.subst σ₁) rest n₁ with
+    | .ok (τ, S₁, n₁) =>
+      match infer rows Γ rest S₁ n₁ with
       | .error err => .error err
-      | .ok (σ₂, ρ, n₂) => .ok (σ₂.comp σ₁, .ext l (τ.subst σ₂) ρ, n₂)
-  | Γ, .rcd fields, n =>
-    match infer rows Γ fields n with
+      | .ok (ρ, S₂, n₂) => .ok (.ext l τ ρ, S₂, n₂)
+  | Γ, .rcd fields, S, n =>
+    match infer rows Γ fields S n with
     | .error err => .error err
-    | .ok (σ, ρ, n') => .ok (σ, tRec ρ, n')
-  | Γ, .proj e l, n =>
-    match infer rows Γ e n with
+    | .ok (ρ, S', n') => .ok (tRec ρ, S', n')
+  | Γ, .proj e l, S, n =>
+    match infer rows Γ e S n with
     | .error err => .error err
-    | .ok (σ₁, τ, n₁) =>
+    | .ok (τ, S₁, n₁) =>
       -- typecheck.rs:914-943: a record that has the field gives the field's type; a variable or a
       -- record without the field is unified with `{ l : φ | ρ }` (new record = expected side)
-      let viaUnify : Except UErr (Subst × Ty × Nat) :=
-        match unify rows unifyFuel (n₁ + 2) (tRec (.ext l (.var n₁) (.var (n₁ + 1)))) τ with
+      let viaUnify : Except UErr (Ty × Subst × Nat) :=
+        match unifyS rows S₁ (n₁ + 2) (tRec (.ext l (.var n₁) (.var (n₁ + 1)))) τ with
         | .error err => .error err
-        | .ok (σ₂, n₂) => .ok (σ₂.comp σ₁, σ₂ n₁, n₂)
-      match τ with
-      | .app (.con "Rec") row =>
+        | .ok (S₂, n₂) => .ok (.var n₁, S₂, n₂)
+      match asRec (τ.subst S₁) with
+      | some row =>
         match lookupField l (rowFields row) with
-        | some τl => .ok (σ₁, τl, n₁)
+        | some τl => .ok (τl, S₁, n₁)
         | none => viaUnify
-      | .var _ => viaUnify
-      | _ => .error .badproj
-  | _, .anil, n => .ok (Subst.id, tArr (.var n), n + 1)
-  | Γ, .asnoc init e, n =>
-    match infer rows Γ init n with
+      | none => if isVar (τ.subst S₁) then viaUnify else .error .badproj
+  | _, .anil, S, n => .ok (tArr (.var n), S, n + 1)
+  | Γ, .asnoc init e, S, n =>
+    match infer rows Γ init S n with
     | .error err => .error err
-    | .ok (σ₁, τi, n₁) =>
-      match infer rows (Γ.subst σ₁) e n₁ with
+    | .ok (τi, S₁, n₁) =>
+      match infer rows Γ e S₁ n₁ with
       | .error err => .error err
-      | .ok (σ₂, τe, n₂) =>
+      | .ok (τe, S₂, n₂) =>
         -- typecheck.rs:960: every element is checked against the element type so far
-        match unify rows unifyFuel n₂ (τi.subst σ₂) (tArr τe) with
+        match unifyS rows S₂ n₂ τi (tArr τe) with
         | .error err => .error err
-        | .ok (σ₃, n₃) => .ok (σ₃.comp (σ₂.comp σ₁), (τi.subst σ₂).subst σ₃, n₃)
-  | _, .conA, n => .ok (Subst.id, fn (.var n) (tT (.var n)), n + 1)
-  | _, .conB, n => .ok (Subst.id, tT (.var n), n + 1)
+        | .ok (S₃, n₃) => .ok (τi, S₃, n₃)
+  | _, .conA, S, n => .ok (fn (.var n) (tT (.var n)), S, n + 1)
+  | _, .conB, S, n => .ok (tT (.var n), S, n + 1)
 
 /-! ### canonical renaming (what the harness does to the reported type) -/
 
@@ -409,8 +417,62 @@ def canon (t : Ty) : Ty := (canonGo t []).1
 
 /-- the answer of the model for a closed program -/
 def inferTop (rows : Bool) (e : Expr) : Option Ty :=
-  match infer rows [] e 0 with
-  | .ok (_, τ, _) => some (canon τ)
+  match infer rows [] e Subst.id 0 with
+  | .ok (τ, S, _) => some (canon (τ.subst S))
   | .error _ => none
+
+/-! ### the declarative system (specification)
+
+Environments map a variable to the SET of its types (`Ty → Prop`): a lambda-bound variable has
+exactly one type, a let-bound variable has a NON-EMPTY set of types of its right-hand side (so the
+right-hand side must itself be typable) — the semantic
+reading of a type scheme `∀ᾱ.τ` as the set of its instances.  This is Hindley–Milner's `let`
+rule without binders: no bound type variables, hence no capture side conditions. -/
+
+abbrev SEnv := List (String × (Ty → Prop))
+
+def slookup (x : String) : SEnv → Option (Ty → Prop)
+  | [] => none
+  | (y, P) :: rest => if x = y then some P else slookup x rest
+
+/-- the row has field `l` of type `t` (first occurrence) -/
+inductive HasField : Ty → String → Ty → Prop where
+  | here (l : String) (t r : Ty) : HasField (.ext l t r) l t
+  | there (l l' : String) (t t' r : Ty) : l ≠ l' → HasField r l t → HasField (.ext l' t' r) l t
+
+inductive HasType : SEnv → Expr → Ty → Prop where
+  | var (Δ : SEnv) (x : String) (P : Ty → Prop) (τ : Ty) :
+      slookup x Δ = some P → P τ → HasType Δ (.var x) τ
+  | lam (Δ : SEnv) (x : String) (b : Expr) (a τ : Ty) :
+      HasType ((x, fun t => t = a) :: Δ) b τ → HasType Δ (.lam x b) (fn a τ)
+  | app (Δ : SEnv) (f e : Expr) (a τ : Ty) :
+      HasType Δ f (fn a τ) → HasType Δ e a → HasType Δ (.app f e) τ
+  | letE (Δ : SEnv) (x : String) (e b : Expr) (P : Ty → Prop) (τ : Ty) :
+      (∃ τ₁, P τ₁) → (∀ τ₁, P τ₁ → HasType Δ e τ₁) → HasType ((x, P) :: Δ) b τ →
+      HasType Δ (.letE x e b) τ
+  | int (Δ : SEnv) (n : Int) : HasType Δ (.int n) tInt
+  | str (Δ : SEnv) (s : String) : HasType Δ (.str s) tString
+  | lt (Δ : SEnv) (a b : Expr) :
+      HasType Δ a tInt → HasType Δ b tInt → HasType Δ (.lt a b) tBool
+  | ifE (Δ : SEnv) (c t e : Expr) (τ : Ty) :
+      HasType Δ c tBool → HasType Δ t τ → HasType Δ e τ → HasType Δ (.ifE c t e) τ
+  | fnil (Δ : SEnv) : HasType Δ .fnil .empty
+  | fcons (Δ : SEnv) (l : String) (e rest : Expr) (τ ρ : Ty) :
+      HasType Δ e τ → HasType Δ rest ρ → HasType Δ (.fcons l e rest) (.ext l τ ρ)
+  | rcd (Δ : SEnv) (f : Expr) (ρ : Ty) : HasType Δ f ρ → HasType Δ (.rcd f) (tRec ρ)
+  | proj (Δ : SEnv) (e : Expr) (l : String) (ρ τ : Ty) :
+      HasType Δ e (tRec ρ) → HasField ρ l τ → HasType Δ (.proj e l) τ
+  | anil (Δ : SEnv) (τ : Ty) : HasType Δ .anil (tArr τ)
+  | asnoc (Δ : SEnv) (init e : Expr) (τ : Ty) :
+      HasType Δ init (tArr τ) → HasType Δ e τ → HasType Δ (.asnoc init e) (tArr τ)
+  | conA (Δ : SEnv) (τ : Ty) : HasType Δ .conA (fn τ (tT τ))
+  | conB (Δ : SEnv) (τ : Ty) : HasType Δ .conB (tT τ)
+
+/-- the set of instances of a scheme under a substitution `R` of its free variables -/
+def Den (s : Scheme) (R : Subst) (τ : Ty) : Prop :=
+  ∃ R' : Subst, (∀ v, v ∈ s.ty.ftv → v ∉ s.vars → R' v = R v) ∧ τ = s.ty.subst R'
+
+/-- the semantic environment denoted by a syntactic one under `R` -/
+def denote (R : Subst) (Γ : Env) : SEnv := Γ.map fun p => (p.1, Den p.2 R)
 
 end GluonModel.HM
